@@ -61,7 +61,8 @@ def cloud_case(draw, max_n=6, max_rank=3):
     cnt = gen.prod(shape)
     pts = draw(gen.klein_points(n, cnt))
     src = draw(st.sampled_from(MODELS))
-    scale = draw(gen.scalars_pm()) if src == "projective" else 1.0
+    scale = draw(st.one_of(gen.scalars_any(), gen.scalars_any(),
+                           st.sampled_from([1e-9, -3e-10, 2e8]))) if src == "projective" else 1.0
     return dict(n=n, shape=shape, src=src, pts=pts, scale=scale,
                 alias=draw(st.integers(0, 5)))
 
@@ -313,7 +314,7 @@ def ideal_case(draw):
     cnt = gen.prod(shape)
     dirs = [draw(gen.ideal_direction(n)) for _ in range(cnt)]
     src = draw(st.sampled_from(["projective", "klein", "poincare", "halfspace"]))
-    return dict(n=n, shape=shape, dirs=dirs, src=src, scale=draw(gen.scalars_pm()))
+    return dict(n=n, shape=shape, dirs=dirs, src=src, scale=draw(gen.scalars_any()))
 
 
 def body_ideal(case, ctx):
@@ -417,6 +418,18 @@ def body_reuse(case, ctx):
     dt = H.dist_klein(Kcur, KQb)
     ctx.small("image: distances are preserved", (dR - dt) / (20 * dist_tol(Kcur, KQb, dt)), 1.0)
     _reads_agree(ctx, P, Kcur, Q, KQ, "the original after being transformed")
+    # the origin handed out by the library is the caller's to re-use as a buffer: whatever is
+    # written into it, the next origin asked for is the origin
+    O1 = hyperbolic.Point.get_origin(n, shape)
+    O1.coords(s2, H.klein_to_model(K2, s2))
+    _reads_agree(ctx, O1, K2, Q, KQ, "an origin overwritten through coords(%s, data)" % s2)
+    O2 = hyperbolic.Point.get_origin(n, shape)
+    ctx.close("get_origin() after an earlier origin was overwritten", np.array(
+        O2.coords("klein")), np.zeros(shape + (n,)), rtol=0, atol=0)
+    d0 = np.array(O2.distance(Q))
+    dq = H.dist_klein(np.zeros(shape + (n,)), np.broadcast_to(KQ, shape + (n,)))
+    ctx.small("distance from the origin", (d0 - dq) / (20 * dist_tol(
+        np.zeros(shape + (n,)), np.broadcast_to(KQ, shape + (n,)), dq)), 1.0)
 
 
 @st.composite
